@@ -14,7 +14,9 @@ Op lines (`T` is a name bound by a `ty` line to the *element* / key type unless 
 
 Answers have the form `A;B`: `A` is what the property specifies (compared with `spec=`), `B` is what
 only the model fixes (nil-ness of results, the input as seen after an in-place call, which of
-several Equal elements is returned). Values are printed with `printVal` after erasing addresses and
+several Equal elements is returned, and an alias flag: `a` when the result shares its backing array
+with the input, `f` when it is fresh memory — for fmap and join the flag is part of `A`: "inputs are
+not modified" includes that the result is not a view of an input). Values are printed with `printVal` after erasing addresses and
 spare capacity, map entries sorted by printed key, spaces replaced by `_`; `canonN` additionally
 maps `-0` to `+0`, which makes it a canonical form of the Equal classes.
 -/
@@ -142,6 +144,15 @@ def getKeySet (env : Env) (K : Ty) (e : SExp) : M (Option (List Val)) := do
   | some m => pure m
   | none => throw "ill-typed"
 
+/-- spare capacity of a wire slice value (0 for nil) -/
+def getSpare (e : SExp) : Nat :=
+  match parseVal e with
+  | some (.slice _ sp _) => sp
+  | _ => 0
+
+/-- "a": the result shares its backing array with the input, "f": fresh memory -/
+def aliasFlag (b : Bool) : String := if b then "a" else "f"
+
 def getBits (e : SExp) : M (List Bool) :=
   match e with
   | .atom a =>
@@ -205,6 +216,7 @@ def runM (s : DState) (name : String) (args : List SExp) : M String := do
       let model := match Lists.sort insertionSort less xs with
         | .panic => "panic"
         | .ok out => bracket (canonRuns eqv out.elems) ++ ";" ++ nilness out ++ "," ++ bracket (canonRuns eqv out.elems)
+            ++ "," ++ aliasFlag (out.isSome && viewAliases xs.elems.length (getSpare l))
       pure (ans model spec)
   | "keys", [t, m] =>
     let T ← getTy s t
@@ -258,8 +270,9 @@ def runM (s : DState) (name : String) (args : List SExp) : M String := do
       | .panic => "panic"
       | .ok (out, after) =>
         if useMap then
-          showSortedE canonN out.elems ++ ";" ++ nilness out ++ "," ++ showSortedE canon out.elems ++ "," ++ showL after
+          showSortedE canonN out.elems ++ ";" ++ nilness out ++ "," ++ showSortedE canon out.elems ++ "," ++ showL after ++ ",f"
         else showE out.elems ++ ";" ++ nilness out ++ "," ++ showL after
+          ++ "," ++ aliasFlag (out.isSome && viewAliases xs.elems.length (getSpare l))
     pure (ans model spec)
   | "set", [t, l] =>
     let E ← getTy s t
@@ -274,7 +287,9 @@ def runM (s : DState) (name : String) (args : List SExp) : M String := do
     let spec := showE (Spec.unionBy (Spec.structEq env E) this.elems that.elems)
     let model := match unionList (elemEq env E) this that with
       | .panic => "panic"
-      | .ok out => showE out.elems ++ ";" ++ nilness out ++ "," ++ showL this ++ "," ++ showL that
+      | .ok out => showE out.elems ++ ";" ++ nilness out ++ "," ++ showL this ++ "," ++ showL that ++ ","
+          ++ aliasFlag (out.isSome && this.isSome &&
+              appendAliases this.elems.length (getSpare a) (out.elems.length - this.elems.length)) ++ "f"
     pure (ans model spec)
   | "intersectl", [t, a, b] =>
     let E ← getTy s t
@@ -283,7 +298,7 @@ def runM (s : DState) (name : String) (args : List SExp) : M String := do
     let spec := showE (Spec.intersectBy (Spec.structEq env E) this.elems that.elems)
     let model := match intersectList (elemEq env E) this that with
       | .panic => "panic"
-      | .ok out => showE out.elems ++ ";" ++ nilness out
+      | .ok out => showE out.elems ++ ";" ++ nilness out ++ ",ff"
     pure (ans model spec)
   | "unionm", [t, a, b] =>
     let K ← getTy s t
@@ -314,6 +329,7 @@ def runM (s : DState) (name : String) (args : List SExp) : M String := do
       | .panic => "panic"
       | .ok ((out, after), st) =>
         showE out.elems ++ "|" ++ showE st.log ++ ";" ++ nilness out ++ "," ++ showL after
+          ++ "," ++ aliasFlag (out.isSome && viewAliases xs.elems.length (getSpare l))
     pure (ans model spec)
   | "takewhile", [t, l, b] =>
     let E ← getTy s t
@@ -321,7 +337,7 @@ def runM (s : DState) (name : String) (args : List SExp) : M String := do
     let bits ← getBits b
     let spec := showE (specTakeWhile bits xs.elems) ++ "|" ++ showE (specLogUntil false bits xs.elems)
     let (out, st) := Lists.takeWhile (Script.call false) xs { script := bits }
-    pure (ans (showE out.elems ++ "|" ++ showE st.log ++ ";" ++ nilness out) spec)
+    pure (ans (showE out.elems ++ "|" ++ showE st.log ++ ";" ++ nilness out ++ ",f") spec)
   | "all", [t, l, b] =>
     let E ← getTy s t
     let xs ← getList env E l
@@ -341,10 +357,10 @@ def runM (s : DState) (name : String) (args : List SExp) : M String := do
     let R ← getTyNamed s (f ++ "r")
     let xs ← getList env E l
     let res ← getList env R rs
-    let spec := showE (res.elems.take xs.elems.length) ++ "|" ++ showE xs.elems ++ "|" ++ showL xs
+    let spec := showE (res.elems.take xs.elems.length) ++ "|" ++ showE xs.elems ++ "|" ++ showL xs ++ "|f"
     let model := match Lists.fmap (Script.call zeroCell) xs { script := res.elems } with
       | .panic => "panic"
-      | .ok (out, st) => showE out.elems ++ "|" ++ showE st.log ++ "|" ++ showL xs ++ ";" ++ nilness out
+      | .ok (out, st) => showE out.elems ++ "|" ++ showE st.log ++ "|" ++ showL xs ++ "|f;" ++ nilness out
     pure (ans model spec)
   | "fmaps", [t, sv, rs] =>
     let R ← getTy s t
@@ -364,10 +380,10 @@ def runM (s : DState) (name : String) (args : List SExp) : M String := do
       | some xs => bracket (xs.map showL)
     let spec := (match ls with
       | none => "n"
-      | some xs => showE (xs.map Sl.elems).flatten) ++ "|" ++ showLL
+      | some xs => showE (xs.map Sl.elems).flatten) ++ "|" ++ showLL ++ "|f"
     let out := Lists.join ls
     let a := if ls.isNone then nilness out else showE out.elems
-    pure (ans (a ++ "|" ++ showLL ++ ";" ++ nilness out) spec)
+    pure (ans (a ++ "|" ++ showLL ++ "|f;" ++ nilness out) spec)
   | "joins", [_, l] =>
     let xs ← getList env (.basic .string) l
     let bss := xs.elems.map strBytes
